@@ -42,6 +42,10 @@ pub fn run(ctx: &Ctx) {
     for b in [1usize, 2] { for side in [crate::sio::Side::Read, crate::sio::Side::Write, crate::sio::Side::Flush] { for k in 1..=(if side == crate::sio::Side::Read { p.files[b].bytes.len() + 2 } else { 12 }) { for kind in crate::sio::FKINDS {
         cases.push(MCase { sel: PoolSel::KeySmall, pool_seed: seed, m: Mutant { base: b, ops: vec![] }, full: true, rs: RSched::dribble(1), ws: WSched::dribble(3), fault: Some(Fault { side, k, kind }) }); } } } }
     ctx.sse_vec("sse_fault_positions", "2 authentic key-mode files x every read/write/flush call index x 8 fault kinds, 1-byte reads, 3-byte writes", cases, check);
+    // at the command line: after a later chunk fails the -o file holds exactly the authenticated prefix (shared with C13)
+    let mut cli = Vec::new();
+    for cmd in [super::c13::Command::Decrypt, super::c13::Command::PassDecrypt] { for j in 1..4u8 { for truncate in [false, true] { for prior in [false, true] { for k in 0..ctx.n(1, 6) { cli.push(super::c13::Case { cmd, cause: super::c13::Cause::LaterChunk { j, truncate }, prior, inst: seed.wrapping_mul(77).wrapping_add(k * 131 + cli.len() as u64) }); } } } } }
+    ctx.sse_vec("cli_output_after_later_chunk_failure", "decrypt / password decrypt x chunk j in 1..3 x {corrupt, truncate} x output path {absent, longer file present}", cli, super::c13::check);
     ctx.pbt("pbt_key_small", ctx.n(40_000, 1_000_000), || strat(PoolSel::KeySmall, seed, 5, 25, 100, false), check);
     ctx.pbt("pbt_hook", ctx.n(40_000, 1_000_000), || strat(PoolSel::HookPass, seed, 5, 25, 100, false), check);
     ctx.pbt("pbt_key_large", ctx.n(1_500, 30_000), || strat(PoolSel::KeyLarge, seed, 3, 25, 100, true), check);
